@@ -102,6 +102,10 @@ pub fn check(c: &Case) -> CheckResult {
     // history 0: sorted insertion
     let base: HandRange = entries.iter().map(|(k, w)| (e_pair(k.0, k.1), *w)).collect();
     let text = base.to_string();
+    let sibling: HandRange = {
+        let ws: Vec<f32> = entries.iter().map(|e| e.1).collect();
+        entries.iter().enumerate().map(|(i, (k, _))| (e_pair(k.0, k.1), ws[(i + 1) % ws.len().max(1)])).collect()
+    };
     let mut histories = 1u32;
     let mut classes = 0u64;
     let cmp = |name: &str, other: &HandRange| -> Result<(), Fail> {
@@ -110,6 +114,12 @@ pub fn check(c: &Case) -> CheckResult {
         }
         if *other != base {
             return Err(Fail::new(format!("equal-contents-unequal:{}", name), format!("range built by history '{}' has identical combos and weights but compares unequal", name)));
+        }
+        // a sibling range - the same combos, the same weights dealt round by one place - is
+        // formatted just before some of the histories (a cache keyed by a digest of the contents
+        // must tell the two apart)
+        if name.len() % 3 != 0 {
+            std::hint::black_box(sibling.to_string().len());
         }
         // a formatting call cut short by its sink precedes some of the histories
         if name.len() % 2 == 0 {
